@@ -293,6 +293,34 @@ def _mk(key, focus, L, extras, roundtrip, t, tag):
                   f"({lv.ni} ints, {lv.nb} bytes), {extras} extra keyword AVPs, L={L}")
 
 
+def argapp(n: int) -> bool:
+    """
+    pre: 0 <= n < 2**32
+    post: _
+    """
+    # classes whose header Application-ID is an ARGUMENT (ASR, RAR): every 32-bit identifier, given as int or as 4 bytes
+    # (grid): header Application-ID == n, R per the reference table, P exactly when n != 0, the AVP carries n
+    key = P["cls"]
+    code, refapp, is_req = REF[key]
+    name = refapp.split(":", 1)[1]
+    cls, kwargs, plan, _ = build_message(key, [], [], G.Leaves(), 2, 0)
+    kwargs[name] = n if P["spelling"] == "int" else n.to_bytes(4, "big")
+    try:
+        m = cls(**kwargs)
+    except LIB:
+        reached()
+        # the int 0 is indistinguishable from "argument not given" for these constructors and is rejected as a missing
+        # mandatory argument (a library error, which the statement allows); nothing else may be rejected
+        return P["spelling"] == "int" and n == 0
+    reached()
+    h = m.header
+    if REPLAY: note(cls=key, n=n, spelling=P["spelling"], app=h.application_id.hex(), flags=h.flags.hex())
+    carried = [a for a in m.avps if a.get_code() == 258]
+    return (h.application_id == n.to_bytes(4, "big") and h.is_request() == is_req and h.is_proxiable() == (n != 0)
+            and not h.is_error() and len(carried) == 1 and carried[0].data == n.to_bytes(4, "big")
+            and int.from_bytes(h.command_code, "big") == code and m.get_length() == len(m.dump()))
+
+
 def queries(tier, seed):
     t = 300 if tier == "quick" else 900          # (the widest windows need ~120 s on an idle machine: headroom for a loaded one)
     qs = [Q("native/sweep", "sweep", engine="py", cto=120, what="all classes: reference-table pairing, None rejection, round trip")]
@@ -314,10 +342,14 @@ def queries(tier, seed):
                 qs.append(_mk(key, w, 1 + ((ki + wi) % 4), 2 if wi == 0 else 0, wi == 0, t, f"w{wi}"))
             for oi in range(0, len(other), 4):
                 qs.append(_mk(key, other[oi:oi + 4], 2, 0, False, t, f"pass{oi // 4}"))
+    for key in sorted(k for k in keys if k in REF and isinstance(REF[k][1], str) and REF[k][1].startswith("arg:")):
+        for spelling in ("int", "bytes"):
+            qs.append(Q(f"argapp/{key}/{spelling}", "argapp", {"cls": key, "spelling": spelling}, cto=t, pto=t,
+                        what=f"{key}: header Application-ID taken from an argument given as {spelling}: every 32-bit identifier"))
     return qs
 
 
-BOUNDS = ["all typed command classes found under bromelia.lib (50 on the pinned tree)", "per query a window of <= 4 (quick) / 5 arguments: "
+BOUNDS = ["classes whose header Application-ID is an argument: every 32-bit identifier in both spellings", "all typed command classes found under bromelia.lib (50 on the pinned tree)", "per query a window of <= 4 (quick) / 5 arguments: "
           "all 2^k presence subsets x all leaf values of those arguments; other arguments concrete", "leaf data length L in 1..4 by class rotation; "
           "Grouped arguments from their mandatory table to depth 3", "quick: one table window (rotating with VERIF_SEED) + one pass-through window per class; "
           "thorough: every window"]
